@@ -9,6 +9,7 @@ import importlib
 import json
 import multiprocessing
 import os
+import signal
 import sys
 import time
 import traceback
@@ -86,6 +87,14 @@ def run_case(mod, case, ctx):
     return None
 
 
+class _CaseTimeout(BaseException):
+    pass
+
+
+def _on_alarm(signum, frame):
+    raise _CaseTimeout()
+
+
 # ------------------------------------------------------------------------------------------
 def _shard(args):
     """One Hypothesis campaign in one process.  Returns stats + (minimised) failure."""
@@ -95,6 +104,8 @@ def _shard(args):
 
     mod = load_module(pid)
     ctx = Ctx(tier, shard)
+    case_cap = int(getattr(mod, "CASE_SECONDS", 60))
+    signal.signal(signal.SIGALRM, _on_alarm)
     state = {"fail": None, "first_fail_t": None, "timed_out": False, "harness": None}
     t0 = time.time()
     strat = mod.strategy(tier)
@@ -113,7 +124,15 @@ def _shard(args):
             if time.time() - state["first_fail_t"] > shrink_cap:
                 return
         try:
-            res = run_case(mod, case, ctx)
+            signal.alarm(case_cap)           # a single runaway case must not hang the whole campaign
+            try:
+                res = run_case(mod, case, ctx)
+            finally:
+                signal.alarm(0)
+        except _CaseTimeout:
+            state["timed_out"] = True
+            ctx.labels["case-time-cap-hit(inconclusive)"] += 1
+            return
         except HarnessError as e:
             state["harness"] = f"{e}\n{traceback.format_exc()}"
             return
